@@ -34,6 +34,7 @@ InitObs(P) ==
     dreg  |-> EmptyFn,      \* C12: (function, key) -> the in-flight deduplicated task, as the property defines it
     aband |-> {},           \* tasks given up because their computation was ended from outside (runaway-recursion reset, raising flush())
     abandfl |-> {},         \* ... those of them given up because BatchBase.flush() itself raised
+    closing |-> {},         \* tasks whose suspended generator is being closed right now (Closed seen, Done not yet)
     killed |-> {},          \* tasks completed from outside by a `fail` op
     assigned |-> {},        \* <<task, variable>>: the task assigned to the variable inside its override; its own reads are not judged until the override is next resumed
     fl    |-> <<>>,         \* compositions (sets of items) of the scheduler's flushes so far
@@ -183,6 +184,7 @@ Step(S, e) ==
             known == f \in DOMAIN S.fut
             S1 == [S EXCEPT !.fut = Upd(@, f, FutRec(TRUE, e.v, e.u)),
                             !.ts = IF f \in DOMAIN S.ts THEN [@ EXCEPT ![f].st = "done"] ELSE @,
+                            !.closing = @ \ {f},
                             !.dreg = IF f \in DOMAIN S.ts /\ f <= NTasks(P) /\ HasDedup(P, f) /\ DedupKey(P, f) \in DOMAIN @
                                         /\ @[DedupKey(P, f)] = f
                                      THEN Upd(@, DedupKey(P, f), 0) ELSE @]
@@ -199,7 +201,8 @@ Step(S, e) ==
                                             => S.ctx[c].st = "closed", "C06.alt.end") \cup
               \* a NonAsyncContext fails the task only if it had to be suspended for a flush inside it
               IfBad((e.v = VX(70000) /\ \A g \in DOMAIN S.fut : S.fut[g].u # e.u) => (T.st = "waiting" /\ f \in Blocked(S) /\
-                                        \E c \in DOMAIN S.ctx : S.ctx[c].owner = f /\ S.ctx[c].ty = "nonasync"),
+                                        \* ... inside a NonAsyncContext block: one that was still open when the task was failed
+                                        \E c \in DOMAIN S.ctx : S.ctx[c].owner = f /\ S.ctx[c].ty = "nonasync" /\ S.ctx[c].st = "closed_by_close"),
                     "C06.nonasync.only")
             itemBad ==
               IF f \notin DOMAIN S.item THEN {} ELSE
@@ -270,7 +273,7 @@ Step(S, e) ==
                     IfBad(NoFaultyCtx(P) => \A c \in DOMAIN S.ctx : (S.ctx[c].st = "on" /\ S.ctx[c].ty # "nonasync") => OnChain(S, S.ctx[c].owner),
                           "C06.flush") \cup
                     \* a task suspended for this flush inside a NonAsyncContext has been failed
-                    IfBad(\A c \in DOMAIN S.ctx : (S.ctx[c].ty = "nonasync" /\ S.ctx[c].st # "closed" /\ ~OnChain(S, S.ctx[c].owner))
+                    IfBad(\A c \in DOMAIN S.ctx : (S.ctx[c].ty = "nonasync" /\ S.ctx[c].st \notin {"closed", "closed_by_close"} /\ ~OnChain(S, S.ctx[c].owner))
                                                   => (FutDone(S, S.ctx[c].owner) /\ S.fut[S.ctx[c].owner].v = VX(70000)),
                           "C06.nonasync.must")]
 
@@ -314,7 +317,8 @@ Step(S, e) ==
     [] e.e = "Exit" ->
         IF e.a \notin DOMAIN S.ctx THEN [S |-> S, bad |-> {"H.unknown_ctx"}] ELSE
         LET C == S.ctx[e.a] IN
-        IF C.ty \in {"nonasync", "cleanup"} THEN [S |-> [S EXCEPT !.ctx[e.a].st = "closed"], bad |-> {}]
+        IF C.ty \in {"nonasync", "cleanup"}
+        THEN [S |-> [S EXCEPT !.ctx[e.a].st = IF C.owner \in S.closing THEN "closed_by_close" ELSE "closed"], bad |-> {}]
         ELSE [S |-> [S EXCEPT !.ctx[e.a].st = IF C.st = "on" THEN "exiting" ELSE "exiting_off"],
               bad |-> IfBad(NoFaultyCtx(P) => C.st = "on", "C06.alt.exit")]
 
@@ -408,7 +412,7 @@ Step(S, e) ==
     [] e.e = "Dirty" ->
         [S |-> [S EXCEPT !.dreg = Upd(@, DedupKey(P, e.a), 0)], bad |-> {}]
 
-    [] e.e = "Closed" -> [S |-> S, bad |-> {}]
+    [] e.e = "Closed" -> [S |-> [S EXCEPT !.closing = @ \cup {e.t}], bad |-> {}]
     [] e.e = "Hang"   -> [S |-> S, bad |-> {"C03.term"} \cup (IF S.ncall >= 2 THEN {"C08.fresh.hang"} ELSE {})]
     \* an asynq context's __exit__ returned a true value: the with-block swallowed the exception (or the result() signal)
     \* that was leaving it - sequential evaluation of the same code would have let it pass
